@@ -11,7 +11,7 @@ use crate::raft::filestore::raftlog::{
     WriteLogResult,
 };
 use crate::raft::filestore::raftsnapshot::{
-    RaftSnapshotManager, RaftSnapshotRequest, RaftSnapshotResponse,
+    RaftSnapshotManager, RaftSnapshotRequest, RaftSnapshotResponse, SnapshotReader,
 };
 use crate::raft::filestore::StoreUtils;
 use crate::raft::store::{ClientRequest, ClientResponse, ShutdownError};
@@ -405,6 +405,24 @@ impl RaftStorage<ClientRequest, ClientResponse> for FileStore {
         snapshot: Box<Self::Snapshot>,
     ) -> anyhow::Result<()> {
         let snapshot_id: u64 = id.parse()?;
+        //最后一个分片的响应丢失时,leader会重发该分片;此时镜像已安装完成,重发的分片对应一个新建的空文件,需忽略
+        let check_file = Box::new(snapshot.try_clone().await?);
+        if SnapshotReader::init_by_file(check_file).await.is_err() {
+            if let RaftSnapshotResponse::LastSnapshot(Some(_), Some(header)) = self
+                .snapshot_manager
+                .send(RaftSnapshotRequest::GetLastSnapshot)
+                .await??
+            {
+                if header.last_index == index {
+                    log::warn!(
+                        "ignore repeated snapshot installation, index:{},id:{}",
+                        index,
+                        &id
+                    );
+                    return Ok(());
+                }
+            }
+        }
         self.snapshot_manager
             .send(RaftSnapshotRequest::InstallSnapshot {
                 end_index: index,
